@@ -1052,25 +1052,60 @@ pub fn step(cfg: &Cfg, sut: &mut Sut, m: &mut Model, pre: &Snapshot, op: Op, has
         }
     }
 
-    // ---- C11: invalidated entries are released once maintenance has run
-    if u || m.maintained {
-        for e in &post.entries {
-            let km = &m.keys[e.key as usize];
+    // ---- C11: invalidated and expired entries are released once maintenance has run
+    // (U: the calls that begin with the purge; S: the previous call was sync()).
+    let purging_call = if u { matches!(op, Op::Ins(..) | Op::Get(_) | Op::Con(_) | Op::Inv(_)) } else { m.maintained };
+    if purging_call {
+        let dead = |k: u8| -> Option<&'static str> {
+            let km = &m.keys[k as usize];
             if !km.has || km.inval {
-                // the entry itself, or one that blocks the access-order purge scan in front
-                // of it, was read at exactly the reading of invalidate_all (la == va > lm)
-                let same_reading = !u
-                    && post.valid_after.is_some()
-                    && post.entries.iter().any(|x| x.last_accessed >= post.valid_after && x.last_modified < post.valid_after);
-                let site = if same_reading { "read-at-the-reading-of-invalidate_all" } else { "other" };
-                let d = format!(
-                    "after {okind}: key {} was invalidated but its entry (value {}) is still held after maintenance",
-                    e.key, e.value
-                );
-                viol.push(v("C11", format!("{kdn}:invalidated-entry-kept:{site}"), d.clone()));
-                if !cfg.has_expiry() {
-                    viol.push(v("C10", format!("{kdn}:counts-invalidated-entry:{site}"), d));
+                Some("invalidated")
+            } else if m.ttl_dead(cfg, k) || m.tti_dead(cfg, k, true) {
+                Some("expired")
+            } else {
+                None
+            }
+        };
+        // one entry read at exactly the reading of invalidate_all (la == va > lm) is
+        // hidden through last_modified but looks alive to the access-order purge scan
+        let same_reading = !u
+            && post.valid_after.is_some()
+            && post.entries.iter().any(|x| x.last_accessed >= post.valid_after && x.last_modified < post.valid_after);
+        for e in &post.entries {
+            let k = e.key as u8;
+            let why = match dead(k) {
+                Some(w) => w,
+                None => continue,
+            };
+            // the entry this very call inserted may be dead on arrival (ttl/tti of zero)
+            if matches!(op, Op::Ins(k2, _) if k2 == k) {
+                continue;
+            }
+            // the purge scans stop at the first live node of their queue: is a live
+            // entry ahead of this one in the queue that would have to purge it?
+            let ahead_live = |d: &DequeSnap| -> bool {
+                match d.nodes.iter().position(|n| n.key == e.key) {
+                    Some(p) => d.nodes[..p].iter().any(|n| dead(n.key as u8).is_none()),
+                    None => false,
                 }
+            };
+            let blocked = ahead_live(&post.probation) || (m.ttl_dead(cfg, k) && ahead_live(&post.write_order));
+            let site = if same_reading {
+                "read-at-the-reading-of-invalidate_all"
+            } else if !u && blocked {
+                "behind-live-entry-in-purge-queue"
+            } else {
+                "other"
+            };
+            let d = format!(
+                "after {okind}: key {} is {why} but its entry (value {}) is still held after maintenance (probation order {:?})",
+                e.key,
+                e.value,
+                post.probation.nodes.iter().map(|n| n.key).collect::<Vec<_>>()
+            );
+            viol.push(v("C11", format!("{kdn}:{why}-entry-kept:{site}"), d.clone()));
+            if why == "invalidated" && !cfg.has_expiry() {
+                viol.push(v("C10", format!("{kdn}:counts-invalidated-entry:{site}"), d));
             }
         }
     }
